@@ -371,8 +371,8 @@ def generate(seed, tier):
         ps = purity_probes(fn, rnd, tier, fns)
         if not ps:
             continue
-        for j in range(0, len(ps), 150):
-            lines = [probe(i + 1, mode, 0, code, desc) for i, (mode, code, desc) in enumerate(ps[j:j + 150])]
+        for j in range(0, len(ps), 40):
+            lines = [probe(i + 1, mode, 0, code, desc) for i, (mode, code, desc) in enumerate(ps[j:j + 40])]
             add(lines, 'purity', fn=fn['name'], safe=1)
     # 3. every type as constructor
     lines = []
